@@ -504,6 +504,9 @@ where
 	let mut missing_outs = vec![];
 	let mut accidental_spend_outs = vec![];
 	let mut locked_outs = vec![];
+	// commitments found in the UTXO set (an unconfirmed record of one of these is merely
+	// waiting for its account to be refreshed, it must not be deleted below)
+	let chain_commits: Vec<pedersen::Commitment> = chain_outs.iter().map(|o| o.commit).collect();
 
 	// check all definitive outputs exist in the wallet outputs
 	for deffo in chain_outs.into_iter() {
@@ -588,6 +591,7 @@ where
 		let unconfirmed_outs: Vec<&OutputCommitMapping> = wallet_outputs
 			.iter()
 			.filter(|o| o.output.status == OutputStatus::Unconfirmed)
+			.filter(|o| !chain_commits.contains(&o.commit))
 			.collect();
 		// Delete unconfirmed outputs
 		for m in unconfirmed_outs.into_iter() {
